@@ -57,7 +57,7 @@ func checkC02(w *World, r *Report) {
 	}
 	// R1
 	bad := w.nonAtomicAccesses(ir.inbox, ir.statusField)
-	r.Check(len(bad) == 0, "C02.R1", "Inbox."+ir.statusField+":plain-access", "no plain (non-atomic) access to the status word", w.fnPos(ir.schedule),
+	r.Check(len(bad) == 0, "C02.R1", "Inbox."+ir.statusField+":plain-access", "no plain (non-atomic) access to the status word", w.fnPos(ir.send),
 		"plain accesses: "+strings.Join(bad, ", "))
 	for _, op := range ir.ops {
 		r.OK("C02.R1", fmt.Sprintf("%s:%s", fname(op.fn), op), "atomic operation on the status word", w.pos(op.call.Pos()))
@@ -128,7 +128,12 @@ func checkC02(w *World, r *Report) {
 				continue
 			}
 			key := fname(fn) + ":handoff"
-			ok := fn == ir.schedule && g.OnlyVia(ir.schedCAS.successEdges(), n)
+			ok := false
+			for _, op := range ir.schedSites {
+				if op.fn == fn && g.OnlyVia(op.successEdges(), n) {
+					ok = true
+				}
+			}
 			r.Check(ok, "C02.R3", key, "worker hand-off is guarded by the success of CAS(idle->running)", w.pos(in.Pos()),
 				"a worker is started without winning the idle->running token: two workers can run Receive concurrently")
 		}
@@ -488,7 +493,7 @@ func checkC03(w *World, r *Report) {
 	if roleProblems(r, "C03.R1", ir) {
 		return
 	}
-	evSched := EvCall("schedule", ir.schedule)
+	evSched := ir.evSched()
 	push := w.Method("ringbuffer", "RingBuffer", "Push")
 	evPush := EvCall("RingBuffer.Push", push)
 
